@@ -565,6 +565,8 @@ def directed(rng, n):
         body = rng.choice([
             'class VF_Base { [Key] string Id; };',
             'class VF_Base { uint8 Id; };',
+            'class VF_Base : VF_Base { }; instance of VF_Base { Id = "c"; };',
+            'class VD%d { string p; }; class VD%d : VD%d { };' % (n, n, n),
             'instance of VF_Base { Id = "dup"; }; instance of VF_Base '
             '{ Id = "dup"; u8 = 1; };',
             'instance of VF_Base { Id = "d"; Id = "e"; };',
